@@ -52,6 +52,11 @@ CHECKS = {
          "DESIGN.md §7 C04",
          "go/types and go/constant are the oracle; both sides compute with go/constant, so agreement in its last bits is by construction. unsafe sizes follow go/types' gc sizes for the host.",
          "property-based testing: grammar-based constant expressions, per-subexpression differential against go/types/go/constant"),
+ "C12": ("exploration",
+         "Round-trip and canonical-form testing of the printer through a verif-tagged hook: position-less syntax trees from a syntax grammar (all operator precedence/associativity combinations, unary-after-unary/binary chains, channel- and function-typed conversions, literals, every statement and declaration kind, type parameters, tags), from G-valid programs, from the builder's own trees (Package.ASTFile vs WriteTo) and from every parsable file under GOROOT/src (thorough: all ~4900, quick: 1/20 chosen by the seed), with all parentheses around operator operands removed and 0-3 statement comment groups. Oracles: parse(print(t)) structurally equals t; go/format.Source(text) == text; each comment printed once, on the line directly before its statement.",
+         "DESIGN.md §7 C12",
+         "go/parser and go/format (go1.23) define 'parses back' and 'canonical'. Position-less comments are supplied the way the repository's tests supply them (text beginning with a line break); comments carrying source positions (XGo's usage) are not asserted.",
+         "property-based round-trip testing (generated + corpus inputs), metamorphic gofmt fixed-point oracle"),
  "C19": ("exploration",
          "Model-based state-machine testing (rapid): random Set/Delete/At/Len/Keys/Iterate/String histories over a pool of generated type keys containing structurally identical but pointer-distinct rebuilds, aliases, permuted/flattened interfaces, permuted unions, renamed type parameters, separately created instantiations, deliberate hash-collision twins and same-named foreign types; after every step every observable is compared with an association list over types.Identical, and Identical=>equal-hash is checked on all pool pairs. Sampling, not proof: right level because the property quantifies over unbounded histories and type shapes.",
          "DESIGN.md §7 C19",
